@@ -813,6 +813,8 @@ result_type parse_url_impl(std::string_view user_input,
           }
 
           url.has_opaque_path = base_url->has_opaque_path;
+          // The host comes from the base: so does its kind.
+          url.host_type = base_url->host_type;
 
           // If c is U+003F (?), then set url's query to the empty string, and
           // state to query state.
@@ -876,6 +878,8 @@ result_type parse_url_impl(std::string_view user_input,
             url.update_host_to_base_host(base_url->get_hostname());
             url.update_base_port(base_url->retrieve_base_port());
           }
+          // The host comes from the base: so does its kind.
+          url.host_type = base_url->host_type;
           state = state::PATH;
           break;
         }
@@ -1145,6 +1149,7 @@ result_type parse_url_impl(std::string_view user_input,
             } else {
               url.update_host_to_base_host(base_url->get_host());
             }
+            url.host_type = base_url->host_type;
             // If the code point substring from pointer to the end of input does
             // not start with a Windows drive letter and base's path[0] is a
             // normalized Windows drive letter, then append base's path[0] to
@@ -1263,6 +1268,7 @@ result_type parse_url_impl(std::string_view user_input,
             }
           }
           url.has_opaque_path = base_url->has_opaque_path;
+          url.host_type = base_url->host_type;
 
           // If c is U+003F (?), then set url's query to the empty string and
           // state to query state.
